@@ -620,7 +620,20 @@ _ed('add_unknown_mods', lambda pt, a: a['self'].add_unknown_mods(a['mods'], a['a
 _ed('add_labile_mods', lambda pt, a: a['self'].add_labile_mods([pt.Mod('Phospho', 1)], a['append']),
     gen=lambda S, W: ok({'self': H(W, S, 'ann'), 'append': V(S.coin(0.7))}))
 _ed('add_internal_mod', lambda pt, a: a['self'].add_internal_mod(a['index'], a['mods'], a['append']), gen=_g_ed_index)
-_ed('pop_internal_mod', lambda pt, a: a['self'].pop_internal_mod(a['index']), gen=_g_ed_index)
+def _g_ed_pop_index(S, W):
+    # mostly a residue that carries modifications (popping the last modified residue leaves an EMPTIED container
+    # behind - a state queries must cope with and must not "tidy up" on the caller's object)
+    d = _g_ed_index(S, W)
+    if d is None:
+        return None
+    sp = W['specs'].get(d['self']['h'])
+    keys = sorted(int(x) for x in (sp or {}).get('internal', {}))
+    if keys and S.coin(0.8):
+        d['index'] = V(S.pick(keys))
+    return d
+
+
+_ed('pop_internal_mod', lambda pt, a: a['self'].pop_internal_mod(a['index']), gen=_g_ed_pop_index)
 _ed('pop_labile_mods', lambda pt, a: a['self'].pop_labile_mods())
 _ed('pop_nterm_mods', lambda pt, a: a['self'].pop_nterm_mods())
 _ed('set_charge', lambda pt, a: setattr(a['self'], 'charge', a['charge']),
